@@ -281,6 +281,11 @@ _public_ int m_mod_ps_subscribe(m_mod_t *mod, const char *topic, m_src_flags fla
                     old_sub->userptr = userptr;
                     return 0;
                 }
+                /*
+                 * Different flags: new subscription replaces old one.
+                 * Drop old one first: the map entry is keyed by its (possibly dupped) topic string.
+                 */
+                m_map_remove(mod->subscriptions, topic);
             }
         }
 
